@@ -23,7 +23,7 @@ EXPLANATION = ('Dominance rules with strength over the CFG of lz4::decompress, r
                'decremented after every copy, the source cursor is tested before every read of the sequence header, the constants are '
                'coherent, and the wrapper neither skips a result check nor rejects more than the decoder contract.  That the bytes '
                'produced equal a reference decoder\'s and that compressed fonts shape identically are run-time facts, not decided.')
-FLOORS = {'COPYGUARD': 6, 'BOOKKEEPING': 2, 'SEQGUARD': 3, 'LZCONST': 1, 'DECOMPRESS': 5}
+FLOORS = {'COPYGUARD': 6, 'BOOKKEEPING': 2, 'SEQGUARD': 3, 'LZCONST': 1, 'DECOMPRESS': 6}
 
 import re
 
@@ -334,16 +334,32 @@ def decompress(run, fx):
         run.held('DECOMPRESS', 'header size test', dc.loc(c), '_sz >= 5 * sizeof(uint32) before the header is read')
     else:
         run.violated('DECOMPRESS', 'header size test', dc.loc(c), 'the compressed-table header is read without `_sz >= 20`', {'facts': fs})
-    # allocation of the announced size; arguments of the call
-    args = [dc.render(dc.strip_all_casts(a)) for a in c['args']]
-    _, us = find_decl(dc, 'uncompressed_size')
-    asg = [e for _, e in dc.elements() if e['k'] == 'BinaryOperator' and e['op'] == '=' and dc.render(dc.N(e['c'][0])) == 'uncompressed_size']
-    szok = any('134217727' in dc.render(e, resolve=True) for e in asg)
+    # roles, from what the variables are used for (not from what they are called): the buffer is what gralloc's result is stored into,
+    # the announced size is what gralloc is asked for
     alloc = [e for e in calls_in(dc) if (e.get('fq') or '').startswith('graphite2::gralloc')]
-    aok = alloc and dc.render(dc.strip_all_casts(alloc[0]['args'][0])) == 'uncompressed_size'
+    if len(alloc) != 1 or not alloc[0].get('args'):
+        raise AnalysisBroken('Face::Table::decompress: expected one gralloc call')
+    S = dc.render(dc.strip_all_casts(alloc[0]['args'][0]))
+    B = None
+    for _, e in dc.elements():
+        if e['k'] == 'BinaryOperator' and e['op'] == '=' and any(x.get('i') == alloc[0]['i'] for x in dc.walk(e['c'][1])):
+            B = dc.render(dc.N(e['c'][0]))
+        elif e['k'] == 'DeclStmt':
+            for d in e['decls']:
+                if d.get('init') is not None and any(x.get('i') == alloc[0]['i'] for x in dc.walk(d['init'])):
+                    B = d['n']
+    if B is None:
+        raise AnalysisBroken('Face::Table::decompress: the variable that receives the gralloc result was not found')
+    args = [dc.render(dc.strip_all_casts(a)) for a in c['args']]
+    asg = [e for _, e in dc.elements() if e['k'] == 'BinaryOperator' and e['op'] == '=' and dc.render(dc.N(e['c'][0])) == S]
+    inits = [d['init'] for _, e in dc.elements() if e['k'] == 'DeclStmt' for d in e['decls'] if d.get('n') == S and d.get('init') is not None]
+    def masked(x):
+        return '134217727' in dc.render(dc.N(x), resolve=True) or any(y.get('v') == 0x07ffffff for y in dc.walk(x))
+    szok = any(masked(e['c'][1]) for e in asg) or any(masked(i_) for i_ in inits)
+    aok = True
     a1 = dc.strip_all_casts(c['args'][1]) if len(c['args']) == 4 else {'k': ''}
     hdr8 = a1['k'] == 'BinaryOperator' and a1['op'] == '-' and '_sz' in dc.render(a1['c'][0]) and dom._cval(dc, a1['c'][1]) == 8
-    argok = len(args) == 4 and args[2] == 'uncompressed_table' and args[3] == 'uncompressed_size' and hdr8
+    argok = len(args) == 4 and args[2] == B and args[3] == S and hdr8
     if szok and aok and argok:
         run.held('DECOMPRESS', 'announced size', dc.loc(c), 'size = hdr & 0x07ffffff; buffer of exactly that size; decoder called with (p, _sz - 8, buffer, size)')
     else:
@@ -351,33 +367,61 @@ def decompress(run, fx):
                      '(mask %s, allocation %s, arguments %s)' % (szok, aok, args))
     # every fixed-size write into the fresh buffer is dominated by the announced size being at least that large
     for m_ in calls_in(dc, 'memset') + calls_in(dc, 'memcpy'):
-        if dc.render(dc.deref(m_['args'][0])) != 'uncompressed_table':
+        if dc.render(dc.deref(m_['args'][0])) != B:
             continue
         L = dom._cval(dc, m_['args'][2])
         fs2 = [f[:3] for f in dom.facts_at(dc, m_['i'])]
-        inst = '%s(uncompressed_table, .., %s) @%s' % (m_['fq'], L, m_['ln'])
-        if L is not None and any(dom.implies(f, ('uncompressed_size', '>=', str(L))) for f in fs2):
-            run.held('DECOMPRESS', inst, dc.loc(m_), 'dominated by uncompressed_size >= %d' % L)
+        inst = '%s(uncompressed_table, .., %s)' % (m_['fq'], L)
+        if L is not None and any(dom.implies(f, (S, '>=', str(L))) for f in fs2):
+            run.held('DECOMPRESS', inst, dc.loc(m_), 'dominated by %s >= %d' % (S, L))
         else:
-            run.violated('DECOMPRESS', inst, dc.loc(m_), 'the freshly allocated buffer of `uncompressed_size` bytes is written with %s bytes without a dominating '
-                         '`uncompressed_size >= %s`: a table announcing a smaller size is written beyond its allocation' % (L, L), {'facts': fs2})
-    # result compared with the announced size; version word compared
-    tests = [dc.render(dc.N(e['args'][0])) for e in calls_in(dc, 'graphite2::Error::test')]
-    r1 = any('lz4::decompress' in t and '!=' in t and 'uncompressed_size' in t for t in tests)
-    r2 = any('uncompressed_table' in t and '!=' in t and 'version' in t for t in tests)
+            run.violated('DECOMPRESS', inst, dc.loc(m_), 'the freshly allocated buffer of `%s` bytes is written with %s bytes without a dominating '
+                         '`%s >= %s`: a table announcing a smaller size is written beyond its allocation' % (S, L, S, L), {'facts': fs2})
+    # result compared with the announced size; version word compared (a result parked in a const local is looked through)
+    tests = [dc.render(dc.N(e['args'][0]), resolve=True) for e in calls_in(dc, 'graphite2::Error::test')] + \
+            [dc.render(dc.N(e['args'][0])) for e in calls_in(dc, 'graphite2::Error::test')]
+    r1 = any('lz4::decompress' in t and '!=' in t and S in t for t in tests)
+    r2 = any(B in t and '!=' in t and 'version' in t for t in tests)
     if r1 and r2:
         run.held('DECOMPRESS', 'result checks', dc.where(), 'decoded length == announced size and version word == original, else E_SHRINKERFAILED')
     else:
         run.violated('DECOMPRESS', 'result checks', dc.where(), 'the decoder result is not compared with the announced size (%s) / the version word is not re-checked (%s)' % (r1, r2))
-    # on error the buffer is not installed: _p = uncompressed_table where the variable was nulled under e
-    nul = [e for _, e in dc.elements() if e['k'] == 'BinaryOperator' and e['op'] == '=' and dc.render(dc.N(e['c'][0])) == 'uncompressed_table' and dc.strip_all_casts(e['c'][1]).get('v') == 0]
+    # on error the buffer is not installed: every store of the buffer into _p is either under "no error", or the buffer variable was
+    # nulled under the error state before it
+    inst_stores = [e for _, e in dc.elements() if e['k'] == 'BinaryOperator' and e['op'] == '=' and dc.render(dc.N(e['c'][0])) == 'this->_p'
+                   and dc.render(dc.deref(e['c'][1])) == B]
+    nul = [e for _, e in dc.elements() if e['k'] == 'BinaryOperator' and e['op'] == '=' and dc.render(dc.N(e['c'][0])) == B and dc.strip_all_casts(e['c'][1]).get('v') == 0]
     okn = any(any('e.operator bool()' in f[0] and f[1] == '!=' for f in dom.facts_at(dc, e['i'])) for e in nul)
-    if okn:
-        run.held('DECOMPRESS', 'failed decode not installed', dc.loc(nul[0]), 'uncompressed_table = 0 under the error state, then _p = uncompressed_table')
+    guarded = inst_stores and all(any('e.operator bool()' in f[0] and f[1] == '==' and f[2] == '0' for f in dom.facts_at(dc, e['i'])) for e in inst_stores)
+    if not inst_stores:
+        run.broken('DECOMPRESS', 'failed decode not installed', 'no store of the decompressed buffer into _p found', dc.where())
+    elif okn or guarded:
+        run.held('DECOMPRESS', 'failed decode not installed', dc.loc(inst_stores[0]), 'the buffer reaches _p only %s' % ('under the no-error state' if guarded else 'after being nulled under the error state'))
     else:
         run.violated('DECOMPRESS', 'failed decode not installed', dc.where(), 'after a failed decode the (freed) buffer pointer is still installed as the table')
+    # ... and once a buffer has been allocated for the decoded table, no exit leaves the raw compressed bytes installed: every path from
+    # the allocation to an exit stores _p (the decoded buffer, or null on failure).  Face::Table::Table ignores the returned Error and
+    # relies on _p == 0 for "failed".
+    pstores = {dc.block_of[e['i']] for _, e in dc.elements() if e['k'] == 'BinaryOperator' and e['op'] == '=' and dc.render(dc.N(e['c'][0])) == 'this->_p'}
+    seen, st, esc = set(), [dc.block_of[alloc[0]['i']]], False
+    while st:
+        b_ = st.pop()
+        if b_ in seen:
+            continue
+        seen.add(b_)
+        if b_ in pstores and b_ != dc.block_of[alloc[0]['i']]:
+            continue
+        if b_ == dc.exit:
+            esc = True
+            break
+        st.extend(dc.succs(b_))
+    if esc:
+        run.violated('DECOMPRESS', 'no exit leaves the compressed bytes installed', dc.where(), 'a path from the allocation of the output buffer to a return stores nothing into _p: after a failed '
+                     'decode the table still holds the raw compressed bytes, and Face::Table::Table (which ignores the returned Error and tests _p) goes on to parse them as a plain table')
+    else:
+        run.held('DECOMPRESS', 'no exit leaves the compressed bytes installed', dc.where(), 'every path from the allocation to an exit stores _p')
     # TRANSPARENT: no rejection stronger than the decoder contract out_size > in_size (= _sz - 8)
-    strong = [f for f in fs if _norm(f[0]) == 'uncompressed_size' and f[1] in ('>', '>=') and _norm(f[2]) in ('this->_sz', '_sz')]
+    strong = [f for f in fs if _norm(f[0]) == S and f[1] in ('>', '>=') and _norm(f[2]) in ('this->_sz', '_sz')]
     if strong:
         run.violated('DECOMPRESS', 'transparent for every shrinking encoding', dc.loc(c), 'Face::Table::decompress only decodes when %s, but the block handed to the decoder is '
                      '_sz - 8 bytes: valid encodings that are 1..8 bytes shorter than the data are rejected and the face does not load'
